@@ -20,6 +20,7 @@ import copy
 import itertools
 import random
 import sys
+import warnings
 from fractions import Fraction
 
 import numpy as np
@@ -437,7 +438,9 @@ class C15:
             if ref is not None:
                 aux["ref"] = cmat(ref)
                 try:
-                    aux["fidelity"] = float(tomo.fidelity(ref))
+                    with warnings.catch_warnings():
+                        warnings.simplefilter("ignore")      # scipy: 'Matrix is singular' for pure states
+                        aux["fidelity"] = float(tomo.fidelity(ref))
                 except Exception as e:  # noqa: BLE001
                     aux["problems"].append(f"fidelity raised {type(e).__name__}: {e}")
         return {"res": res, "aux": aux}
